@@ -135,6 +135,9 @@ pub struct Sm4Cipher {
 
 impl Sm4Cipher {
     pub fn new(k: &[u8]) -> Sm4Result<Sm4Cipher> {
+        if k.len() != 16 {
+            return Err(Sm4Error::ErrorDataLen);
+        }
         let mut rk = [0u32; 32];
         let mk = [
             u32::from_be_bytes(k[0..4].try_into().unwrap()),
@@ -159,6 +162,9 @@ impl Sm4Cipher {
     }
 
     pub fn encrypt(&self, block: &[u8]) -> Sm4Result<Vec<u8>> {
+        if block.len() != 16 {
+            return Err(Sm4Error::ErrorBlockSize);
+        }
         let mut x = [
             u32::from_be_bytes(block[0..4].try_into().unwrap()),
             u32::from_be_bytes(block[4..8].try_into().unwrap()),
@@ -184,6 +190,9 @@ impl Sm4Cipher {
     }
 
     pub fn decrypt(&self, block: &[u8]) -> Sm4Result<Vec<u8>> {
+        if block.len() != 16 {
+            return Err(Sm4Error::ErrorBlockSize);
+        }
         let mut x = [
             u32::from_be_bytes(block[0..4].try_into().unwrap()),
             u32::from_be_bytes(block[4..8].try_into().unwrap()),
